@@ -3,6 +3,7 @@
 pub mod nom {
     use vstd::prelude::*;
     verus! {
+    #[derive(Debug)]
     pub struct NomError { pub x: u8 }
     pub type IResult<I, O> = Result<(I, O), NomError>;
     // take_while_m_n(1, 1, pred)(input): exactly one leading character satisfying pred
@@ -32,6 +33,7 @@ pub mod nom {
         ensures r == (if s@.len() > 0 { Some(s@[0]) } else { None })
     { unimplemented!() }
     pub uninterp spec fn parse_u64_spec(s: Seq<char>) -> Option<u64>;
+    #[derive(Debug)]
     pub struct ParseIntError { pub x: u8 }
     // S.parse::<u64>()
     #[verifier::external_body]
